@@ -703,7 +703,10 @@ class SimKernel:
                 self.net_hist.append({n: list(r) for n, r in self.net.items()})
             self.bump()
         elif kind == "net_set":
-            self.net = {n: list(r) for n, r in ev["table"].items()}
+            tab = ev["table"]
+            # (a list of pairs keeps the listing order through JSON)
+            self.net = {n: list(r) for n, r in (
+                tab.items() if isinstance(tab, dict) else tab)}
             self.bump()
         elif kind == "disk_set":
             self.disks = [dict(d) for d in ev["table"]]
